@@ -7,6 +7,8 @@ import (
 	"testing"
 
 	"github.com/CrowdStrike/csproto"
+	gogoex2 "github.com/CrowdStrike/csproto/example/proto2/gogo"
+	v2ex2 "github.com/CrowdStrike/csproto/example/proto2/googlev2"
 	gogoex "github.com/CrowdStrike/csproto/example/proto3/gogo"
 	v2ex "github.com/CrowdStrike/csproto/example/proto3/googlev2"
 	"google.golang.org/protobuf/proto"
@@ -59,5 +61,46 @@ func TestC09RacePass(t *testing.T) {
 			total += G * *iters
 		}
 	}
-	fmt.Printf("RACEPASS C09 concurrent Size/Marshal calls=%d goroutines={2,8,32}\n", total)
+	// phase 2: DIFFERENT message types (two runtimes, proto2 messages carrying an extension among them) are marshaled
+	// at the same time: anything the dispatcher or the extension accessors share between types is exercised
+	str := func(s string) *string { return &s }
+	u64 := func(v uint64) *uint64 { return &v }
+	i32 := func(v int32) *int32 { return &v }
+	gb := &gogoex2.BaseEvent{EventID: str("e"), SourceID: str("s"), Timestamp: u64(9), EventType: gogoex2.EventType_EVENT_TYPE_ONE.Enum()}
+	if err := csproto.SetExtension(gb, gogoex2.E_TestEvent_EventExt, &gogoex2.TestEvent{Name: str("x"), Embedded: &gogoex2.EmbeddedEvent{ID: i32(3)}}); err != nil {
+		t.Fatal(err)
+	}
+	vb := &v2ex2.BaseEvent{EventID: str("e"), SourceID: str("s"), Timestamp: u64(9), EventType: v2ex2.EventType_EVENT_TYPE_ONE.Enum()}
+	if err := csproto.SetExtension(vb, v2ex2.E_TestEvent_EventExt, &v2ex2.TestEvent{Name: str("x"), Embedded: &v2ex2.EmbeddedEvent{ID: i32(3)}}); err != nil {
+		t.Fatal(err)
+	}
+	mixed := append(append([]any{}, msgs...), gb, vb)
+	wants := make([][]byte, len(mixed))
+	shared := make([]any, len(mixed))
+	for i, m := range mixed {
+		b, err := csproto.Marshal(csproto.Clone(m))
+		if err != nil {
+			t.Fatal(err)
+		}
+		wants[i], shared[i] = b, csproto.Clone(m)
+	}
+	var wg sync.WaitGroup
+	const G2 = 12
+	for g := 0; g < G2; g++ {
+		wg.Add(1)
+		go func(g int) {
+			defer wg.Done()
+			for i := 0; i < *iters; i++ {
+				k := (g + i) % len(mixed)
+				b, err := csproto.Marshal(shared[k])
+				if err != nil || !bytes.Equal(b, wants[k]) {
+					t.Errorf("ISOLATION-FAILURE mixed types: Marshal of %T differs: %x vs %x (%v)", shared[k], b, wants[k], err)
+					return
+				}
+			}
+		}(g)
+	}
+	wg.Wait()
+	total += G2 * *iters
+	fmt.Printf("RACEPASS C09 concurrent Size/Marshal calls=%d goroutines={2,8,32} + 12 goroutines over %d mixed types\n", total, len(mixed))
 }
